@@ -31,7 +31,7 @@ RULE = (
     "cases: generated source tree (1-10 entries: names with spaces/unicode, empty/binary/70 KB files, modes 0600-0755, "
     "integer and fractional mtimes, nested dirs, relative/absolute/dangling/outside symlinks) x prior target state "
     "(empty, stale copy, plain copy with other mtimes/modes, same mtime but other size, same size with the mtime in the "
-    "same second, entries of another kind, unrelated extras) x trailing slashes on the paths x delete flag x 1-3 targets x cwd inside/outside the "
+    "same second, entries of another kind, unrelated extras) x trailing slashes on the paths x targets named by absolute or relative paths (receiver and sender in different working directories) x delete flag x 1-3 targets x cwd inside/outside the "
     "tree x 0-2 modify-then-resync steps (content, size-preserving content, mode-only, mtime-only, add, remove, kind "
     "change) x seeded listdir order x schedules.  Non-trivial = at least one file was transferred under a schedule with "
     "real choices; distinct = distinct event-log digests."
